@@ -426,5 +426,8 @@ def run(ctx: Ctx) -> None:
 
     ctx.rule("C03.R7", "values referred to from expressions are those of the text read so far *in the current section*: `_offset_` and constants by name, asked of one builder at every point of a growing two-section (service) definition (shared with C08.R3)", min_instances=1)
     ctx.attempt(c08.rule_identifiers, ctx, "C03.R7")
+    from . import c03text
+
+    c03text.run(ctx)
     ctx.assume("parsimonious visits children before their parent, left to right (NodeVisitor.visit as written in nodes.py)")
-    ctx.undecided("equality of the re-parsed canonical rendering (a round trip over values)")
+    ctx.undecided("mirror, formatting invariance and the canonical round trip beyond the generated corpus of texts (C03.R9-R11 are bounded)")
